@@ -29,12 +29,14 @@ import time
 from concurrent.futures import ThreadPoolExecutor
 
 VERIF = os.path.dirname(os.path.dirname(os.path.abspath(__file__)))
-LEAN = os.path.join(VERIF, "lean")
-HARNESS = os.path.join(VERIF, "harness")
-WORK = os.path.join(VERIF, ".work")
-EVID = os.path.join(VERIF, "evidence")
+# The PV_* overrides exist only for tools/mutant (isolated runs against a patched copy of /repo);
+# registered checks never set them.
+LEAN = os.environ.get("PV_LEAN", os.path.join(VERIF, "lean"))
+HARNESS = os.environ.get("PV_HARNESS", os.path.join(VERIF, "harness"))
+WORK = os.environ.get("PV_WORK", os.path.join(VERIF, ".work"))
+EVID = os.environ.get("PV_EVID", os.path.join(VERIF, "evidence"))
 REPLAY = os.path.join(EVID, "replay")
-REPO = "/repo"
+REPO = os.environ.get("PV_REPO", "/repo")
 GUARD = "rustpython_parser_verif"
 ALLOWED_AXIOMS = {"propext", "Classical.choice", "Quot.sound"}
 DEFAULT_SEED = 20260929
@@ -524,7 +526,7 @@ def run_check(pid, tier, seed):
         "discharged": n_dis,
         "obligation_list": obligations,
         "checker_cmd": "cd /verif/lean && lake build " + " ".join(targets) +
-                       " && lake env lean ../.work/%s/Audit.lean  # #print axioms" % mod.ID +
+                       " && lake env lean /verif/.work/%s/Audit.lean  # #print axioms" % mod.ID +
                        ("" if ctx.quick else " && lake env leanchecker " + " ".join(targets)),
         "trusted_base": list(mod.TRUSTED),
         "theorems": [{"name": t, "axioms": thm_axioms.get(t)} for t in mod.THEOREMS],
